@@ -703,6 +703,23 @@ func vf08RoundTrip(st *vfStats, t vfFataler, c *vf08Case, wire []byte, unpadded 
 			vfHex(vf08RefEnc(fresh).wire), vf08Diff(b.wire, a.wire))
 	}
 	st.Class("roundtrip-ok")
+	// the same body decoded into a receiver that already holds content (here: the value that produced it - an
+	// application re-using an extension object, or decoding captured bytes into the extension of a parrot spec):
+	// decoding replaces what the receiver held, so the re-encoding is still the body's
+	if _, isPSK := orig.(*UtlsPreSharedKeyExtension); isPSK {
+		return
+	}
+	if p := vfCatch(func() { _, err = orig.(TLSExtensionWriter).Write(body) }); p != nil {
+		st.Violation(t, "%s.Write(%s) into a populated receiver panicked: %v", c.typ, vfHex(body), p.Val)
+	}
+	if err != nil {
+		st.Violation(t, "%s.Write into a populated receiver rejected a body its own Read produced (%s): %v", c.typ, vfHex(body), err)
+	}
+	if b2 := vf08RefEnc(vf08Norm(orig)); a.zero != b2.zero || !bytes.Equal(a.wire, b2.wire) {
+		st.Violation(t, "%s round trip into a populated receiver (the value that produced the body): %s decoded and re-encoded gives %s; normalised forms differ: %s",
+			c.typ, vfHex(wire), vfHex(vf08RefEnc(orig).wire), vf08Diff(b2.wire, a.wire))
+	}
+	st.Class("roundtrip-populated-receiver-ok")
 }
 
 // ---------------------------------------------------------------------------------------------------------
